@@ -459,9 +459,13 @@ def simpleOp (l : Line) : M Unit := do
   | ["cleanup"] =>
       maintenanceRan; resolveOrFail [] atomics "cleanup"
       -- C13: maintenance at time T has removed every entry whose deadline lies more than one timer tick before T
-      -- (built-in calculators only: reads never shorten a deadline)
+      -- (calculators under which reads never shorten a deadline: the built-in ones, and per-entry tables whose read column
+      -- leaves every deadline alone)
       let s ← getS
-      let builtin := match cfg.expiry with | .creating _ | .writing _ | .accessing _ => true | _ => false
+      let builtin := match cfg.expiry with
+        | .creating _ | .writing _ | .accessing _ => true
+        | .custom => decide (cfg.expRead.dflt ≤ 0) && cfg.expRead.ents.all (fun p => decide (p.2 ≤ 0))
+        | _ => false
       if builtin && !c.deferred then
         match s.m.find? (fun p => p.2.exp + 1073741824 < s.now) with
         | some p => fail s!"C13: after CleanUp at {s.now} key {p.1} (deadline {p.2.exp}, {s.now - p.2.exp} ns ago) is still physically present and its Expiration event has not been delivered"
